@@ -47,7 +47,8 @@ Theorem accepts_sound p : accepts p = true -> ~ K14 p -> Sound p.
 Proof.
   destruct p as [n vs es|nres req| | |api send sync|api m1 m2| | |]; cbn [accepts Sound K14]; intros H HK; try exact I; try discriminate.
   - apply andb_true_iff in H as [H Hd]. apply andb_true_iff in H as [Hv He].
-    change fact_entry_views_disjoint_bound_everywhere with true in Hd. cbv iota in Hd.
+    change fact_entry_views_disjoint_bound_everywhere with true in Hd.
+    change fact_disjoint_takes_out_exactly_the_mutable_views with true in Hd. cbv iota beta delta [andb] in Hd.
     unfold contains_views in Hv, He.
     apply andb_true_iff in Hv as [NDv Bv]. apply andb_true_iff in He as [NDe Be].
     apply nodupb_NoDup in NDv. apply nodupb_NoDup in NDe.
